@@ -126,7 +126,8 @@ def _call(ctx, pos_exact, no, cc, shift=(0, 0, 0), form=0, by_name=False):
         # keyword forms, and the optional arguments in their documented positional order (sgname, sgno, cell_choice)
         positional = (want + int(pos_exact[0].denominator)) % 4 == 0
         if by_name:
-            got = ctx.S.multiplicity(p, name) if positional else ctx.S.multiplicity(p, sgname=name)
+            typed = c04.spell(name, want + int(pos_exact[1].denominator))
+            got = ctx.S.multiplicity(p, typed) if positional else ctx.S.multiplicity(p, sgname=typed)
         else:
             got = ctx.S.multiplicity(p, None, no, cc) if positional else ctx.S.multiplicity(p, sgno=no, cell_choice=cc)
         mon.config("call form:%s" % ("positional" if positional else "keyword"))
